@@ -1339,4 +1339,63 @@ theorem accepted_not_below_recovery {rx : Str → Str → Bool} {t : Tree} {rule
     rw [hq, lowerName_length] at hlen; exact hlen
   rw [this] at hb; cases hb
 
+/-! ### filter lists without a usable entry -/
+
+/-- a configured list (users or groups) none of whose entries newFilter can use: it is not empty, no entry is a valid
+    name, and a single entry is not a regular expression either -/
+def NoUsable (valid : Str → Bool) (l : List Str) : Prop :=
+  l ≠ [] ∧ (∀ x ∈ l, valid x = false) ∧ (∀ x, l = [x] → hasSpecial x = false)
+
+theorem filterList_nil (valid compiles : Str → Bool) : filterList valid compiles [] = ([], none, true) := rfl
+
+/-- such a list keeps no name and no expression, and still clears `empty` -/
+theorem filterList_noUsable {valid compiles : Str → Bool} {l : List Str} (h : NoUsable valid l) :
+    filterList valid compiles l = ([], none, false) := by
+  obtain ⟨hne, hall, hsp⟩ := h
+  match l, hne, hall, hsp with
+  | [u], _, hall, hsp =>
+    have h1 := hsp u rfl
+    have h2 := hall u (by simp)
+    simp [filterList, h1, h2]
+  | u1 :: u2 :: rest, _, hall, _ =>
+    have : (u1 :: u2 :: rest).filter valid = [] := by
+      rw [List.filter_eq_nil_iff]
+      intro x hx
+      simp [hall x hx]
+    simp [filterList, this]
+
+/-- a filter whose configured lists have no usable entry (at least one list is configured) matches nobody: an allow
+    filter admits nobody, a deny filter denies nobody -/
+theorem filter_noUsable (compiles : Str → Bool) (rx : Str → Str → Bool) (ty : Str) (us gs : List Str) (u : User)
+    (hu : us = [] ∨ NoUsable cfgUserValid us) (hg : gs = [] ∨ NoUsable cfgGroupValid gs) (hne : us ≠ [] ∨ gs ≠ []) :
+    (newFilter compiles ty us gs).empty = false ∧
+    (newFilter compiles ty us gs).allowUser rx u = !(newFilter compiles ty us gs).allow := by
+  have hul : (filterList cfgUserValid compiles us).1 = [] ∧ (filterList cfgUserValid compiles us).2.1 = none := by
+    rcases hu with e | h
+    · subst e; exact ⟨rfl, rfl⟩
+    · rw [filterList_noUsable h]; exact ⟨rfl, rfl⟩
+  have hgl : (filterList cfgGroupValid compiles gs).1 = [] ∧ (filterList cfgGroupValid compiles gs).2.1 = none := by
+    rcases hg with e | h
+    · subst e; exact ⟨rfl, rfl⟩
+    · rw [filterList_noUsable h]; exact ⟨rfl, rfl⟩
+  have hempty : ((filterList cfgUserValid compiles us).2.2 && (filterList cfgGroupValid compiles gs).2.2) = false := by
+    rcases hne with h | h
+    · rcases hu with e | h'
+      · exact absurd e h
+      · rw [filterList_noUsable h']; rfl
+    · rcases hg with e | h'
+      · exact absurd e h
+      · rw [filterList_noUsable h']; simp
+  have he : (newFilter compiles ty us gs).empty = false := by simp only [newFilter]; exact hempty
+  refine ⟨he, ?_⟩
+  have hfu : (newFilter compiles ty us gs).filterUser rx u.name = false := by
+    simp [Filter.filterUser, newFilter, hul.1, hul.2]
+  have hfg : ∀ g, (newFilter compiles ty us gs).filterGroup rx g = false := by
+    intro g; simp [Filter.filterGroup, newFilter, hgl.1, hgl.2]
+  have hany : u.groups.any ((newFilter compiles ty us gs).filterGroup rx) = false := by
+    rw [List.any_eq_false]; intro g _; simp [hfg g]
+  unfold Filter.allowUser
+  rw [he, hfu, hany]
+  simp
+
 end Yk.Place
